@@ -1419,6 +1419,9 @@ func childMain() {
 	cfg.Ops, _ = strconv.Atoi(a[5])
 
 	rec := vlib.ChildRec()
+	if cfg.Kind == "small" {
+		smallMain(cfg, rec) // bare driver with small devices (smalldram.go); does not return
+	}
 	c := &child{cfg: cfg, rec: rec, ym: &yieldMon{}, waitingQ: map[int]*driver.CommandQueue{}, blockingOp: map[int]string{},
 		cnt: map[string]int64{}, dist: map[string]map[string]bool{}, nontriv: map[string]bool{}}
 	driver.VerifSetYieldHook(c.ym.hook)
